@@ -352,8 +352,37 @@ func (u unsupported) Error() string { return "unsupported: " + string(u) }
 
 // typeKey is the heap key component for a type.
 func typeKey(T types.Type) string {
+	// named struct types that share one struct declaration (type URL url.URL) denote the
+	// same memory layout and convert freely through pointers: key them by the declaring type
+	if n, ok := T.(*types.Named); ok {
+		if st, ok := n.Underlying().(*types.Struct); ok && st.NumFields() > 0 {
+			if k, ok := canonStruct[st]; ok {
+				return k
+			}
+			k := types.TypeString(T, func(p *types.Package) string { return p.Path() })
+			if pkg := st.Field(0).Pkg(); pkg != nil && (n.Obj().Pkg() == nil || pkg != n.Obj().Pkg() || true) {
+				var best *types.TypeName
+				for _, name := range pkg.Scope().Names() {
+					tn, ok := pkg.Scope().Lookup(name).(*types.TypeName)
+					if !ok || tn.IsAlias() {
+						continue
+					}
+					if tn.Type().Underlying() == types.Type(st) && (best == nil || tn.Pos() < best.Pos()) {
+						best = tn
+					}
+				}
+				if best != nil {
+					k = types.TypeString(best.Type(), func(p *types.Package) string { return p.Path() })
+				}
+			}
+			canonStruct[st] = k
+			return k
+		}
+	}
 	return types.TypeString(T, func(p *types.Package) string { return p.Path() })
 }
+
+var canonStruct = map[*types.Struct]string{}
 
 // PtrLoc builds the location a pointer value of type *T designates.
 func (c *Ctx) PtrLoc(v Value) *LocV {
